@@ -22,13 +22,16 @@ PROGRAMS = {
 }
 NAMES = ["prog.tsh", "a.b.c.tsh", "noext", "my prog.tsh", ".hidden", "x.sh", "deep/er/p.tsh", "x.bat",
          # stems that end in a character of their own extension, repeated extensions, one-letter names (round 5: C19-6)
-         "tests.tsh", "s.tsh", "greet.tsh", "h.tsh", "t.t", "ss.s", "x.tsh.tsh", "a..tsh", "tsh", "tsh.tsh", "sh.sh", "deep/er/tst.tsh"]
+         "tests.tsh", "s.tsh", "greet.tsh", "h.tsh", "t.t", "ss.s", "x.tsh.tsh", "a..tsh", "tsh", "tsh.tsh", "sh.sh", "deep/er/tst.tsh",
+         # characters that mean something to a formatting function, a shell or a path routine (round 8: C19-A, the stem used as a format string)
+         "100%done.tsh", "50%.tsh", "a%sb.tsh", "rate 5%% up.tsh", "a%.0s.tsh", "%d.tsh", "%v%v.tsh", "a$b.tsh", "a*b.tsh", "a'b.tsh", "a\\b.tsh", "{x}.tsh", "a;b.tsh",
+         "~.tsh", "a&b.tsh", "#c.tsh", "[z].tsh", "deep/er/q%s.tsh"]
 
 
 def rand_name(rng):
     """a file name over an alphabet that contains the characters of the usual extensions"""
     while True:
-        stem = "".join(rng.choice("tshab. x-T") for _ in range(rng.randint(0, 5)))
+        stem = "".join(rng.choice("tshab. x-T%$*{}'") for _ in range(rng.randint(0, 5)))
         ext = rng.choice([".tsh", ".tsh", ".tsh", ".t", ".sh", ".txt", "", ".TSH", ".h", ".bat", ".s"])
         name = stem + ext
         if name and name not in (".", "..", "out", "out2", "nodir", "nothere.tsh") and not name.startswith("-"):
